@@ -24,7 +24,12 @@ static void cleanup_tempdir(void)
 	if (tmp_dirname[0] == '\0')
 		return;
 
-	remove_directory(tmp_dirname);
+	/*
+	 * The name came from mkstemp() and was free then, but the directory is
+	 * created later: never remove something that is not our own data.
+	 */
+	if (can_remove_directory(tmp_dirname))
+		remove_directory(tmp_dirname);
 
 	memset(tmp_dirname, '\0', sizeof(tmp_dirname));
 }
